@@ -649,6 +649,37 @@ def check_paths(inp) -> list:
         compare(bs, "explicit shuffled operations")
     bs = ph.basis_cls(order)(cr.atoms(), log_level=0).run()
     compare(bs, "second run (determinism)")
+    # log level 1 (the verbose branches of every stage; their output is discarded)
+    import contextlib
+    import io
+    with contextlib.redirect_stdout(io.StringIO()):
+        bs = ph.basis_cls(order)(cr.atoms(), log_level=1).run()
+    compare(bs, "log_level=1")
+    # the projector-based REFERENCE variant shipped in the package (projector_permutation_lat_trans_O{n} + eigsh) against
+    # the fast pointer-based permutation stage, with and without a cutoff: same subspace of the class space
+    import importlib
+    from symfc.utils.cutoff_tools import FCCutoff
+    from symfc.utils.eig_tools import eigsh_projector
+    mt = importlib.import_module(f"symfc.utils.matrix_tools_O{order}")
+    pt = importlib.import_module(f"symfc.utils.permutation_tools_O{order}")
+    tp = base.translation_permutations
+    ad = base._atomic_decompr_idx
+    cuts = [None]
+    dd = ph.min_image_distances(cr)
+    vals = np.unique(np.round(dd[dd > 1e-6], 6))
+    if len(vals) >= 2:
+        i = int(rs.integers(1, len(vals)))
+        cuts.append(float((vals[i - 1] + vals[i]) / 2))
+    for cv in cuts:
+        fc = None if cv is None else FCCutoff(cr.atoms(), cutoff=cv)
+        Pref = getattr(mt, f"projector_permutation_lat_trans_O{order}")(tp, atomic_decompr_idx=ad, fc_cutoff=fc)
+        cref = eigsh_projector(Pref, verbose=False).toarray()
+        c = getattr(pt, f"compr_permutation_lat_trans_O{order}")(tp, atomic_decompr_idx=ad, fc_cutoff=fc).toarray()
+        if cref.shape[1] != c.shape[1]:
+            out.append(f"order {order}: projector-based permutation stage gives {cref.shape[1]} vectors, the fast one "
+                       f"{c.shape[1]} (cutoff {cv})")
+        elif c.shape[1] and float(np.abs(cref @ cref.T - c @ c.T).max()) > 1e-8:
+            out.append(f"order {order}: projector-based and fast permutation stages span different spaces (cutoff {cv})")
     return out
 
 
